@@ -7,6 +7,7 @@ SPDX-License-Identifier: Apache-2.0
 package introduce
 
 import (
+	"encoding/json"
 	"errors"
 	"fmt"
 
@@ -167,8 +168,17 @@ func getMetaRecipients(md *metaData) []*Recipient {
 	for i, _recipient := range _recipients {
 		recipient, ok := _recipient.(*Recipient)
 		if !ok {
-			// should never happen, otherwise, the protocol logic is broken
-			panic("recipient type is wrong")
+			// metadata that went through the store comes back as plain JSON values
+			src, err := json.Marshal(_recipient)
+			if err != nil {
+				return nil
+			}
+
+			recipient = &Recipient{}
+
+			if err = json.Unmarshal(src, recipient); err != nil {
+				return nil
+			}
 		}
 
 		recipients[i] = recipient
